@@ -32,6 +32,8 @@ CONSTANTS Chans,          \* channel indices
           ReadSizes,      \* sizes asked for by recv / recv_stderr
           StatusPick,     \* which rows of StatusTable (below) the peer may send as exit status
           AtomicCombine,  \* see above
+          Window,         \* the peer's send window per channel in bytes (both streams share it); 0 = never the
+                          \* limit (the default 2 MiB window against payloads of at most 512 KiB)
           EventBeforeStatus, \* FALSE (the code): _handle_request stores exit_status, then sets status_event;
                           \* TRUE: mutation, the event is set first and the value stored afterwards
           Mutation        \* "none" or the name of a deliberately wrong variant (sensitivity runs)
@@ -61,9 +63,10 @@ VARIABLES sent,        \* [Chans -> [Eps -> Nat]]   bytes written so far by the 
           pstate,      \* [Chans -> {"open","eof","closed"}]  what the peer has sent: EOF (shutdown_write), CLOSE
           statusEv,    \* [Chans -> BOOLEAN]  Channel.status_event (what recv_exit_status waits for)
           reported,    \* [Chans -> status | None | Unread]  what recv_exit_status() returned to the application
+          win,         \* [Chans -> Nat]  what is left of the peer's send window (stays 0 when Window = 0)
           shut         \* [Chans -> BOOLEAN]  the peer's EOF or CLOSE has been processed here: _handle_eof /
                        \* _set_closed have called close() on in_buffer and in_stderr_buffer
-vars == <<sent, statusSent, wire, buf, got, combine, swpc, moved, tpc, status, pstate, shut, statusEv, reported>>
+vars == <<sent, statusSent, wire, buf, got, combine, swpc, moved, tpc, status, pstate, shut, statusEv, reported, win>>
 
 (* ------------------------------------------------------------------ runs *)
 Run(c, s, pos, n) == [c |-> c, s |-> s, pos |-> pos, n |-> n]
@@ -109,12 +112,22 @@ Init == /\ sent = [c \in Chans |-> [e \in Eps |-> 0]]
         /\ shut = [c \in Chans |-> FALSE]
         /\ statusEv = [c \in Chans |-> FALSE]
         /\ reported = [c \in Chans |-> Unread]
+        /\ win = [c \in Chans |-> Window]
 
 \* ---- the peer (send / send_stderr / send_exit_status on its end of the channel)
+\* One send() / send_stderr() of the peer: it takes at most what is left of the window (a short count when the
+\* caller offered more).  sendall() is a loop of these; the peer's stream position sent[c][s] moves by what was
+\* handed over.  Mutation "sendall_skips_short_slice": sendall offers a slice of n bytes, send() takes only the
+\* k < n that fit into the window, and the loop carries on after the whole slice.
+Room(c) == IF Window = 0 THEN MaxMsg ELSE win[c]
 PeerWrite(c, s, n) ==
   /\ statusSent[c] = None /\ pstate[c] = "open"
   /\ sent[c][s] + n <= MaxBytes
-  /\ wire' = Append(wire, Run(c, s, sent[c][s], n))
+  /\ Room(c) >= 1
+  /\ LET k == IF n <= Room(c) THEN n ELSE Room(c) IN
+       /\ (k < n => Mutation = "sendall_skips_short_slice")      \* a faithful sendall offers the rest again
+       /\ wire' = Append(wire, Run(c, s, sent[c][s], k))
+       /\ win' = IF Window = 0 THEN win ELSE [win EXCEPT ![c] = @ - k]
   /\ sent' = [sent EXCEPT ![c][s] = @ + n]
   /\ UNCHANGED <<statusSent, buf, got, combine, swpc, moved, tpc, status, pstate, shut, statusEv, reported>>
 
@@ -122,19 +135,19 @@ PeerExit(c, v) ==
   /\ statusSent[c] = None /\ pstate[c] # "closed"
   /\ statusSent' = [statusSent EXCEPT ![c] = v]
   /\ wire' = Append(wire, Run(c, "exit", v, 0))
-  /\ UNCHANGED <<sent, buf, got, combine, swpc, moved, tpc, status, pstate, shut, statusEv, reported>>
+  /\ UNCHANGED <<sent, buf, got, combine, swpc, moved, tpc, status, pstate, shut, statusEv, reported, win>>
 
 \* shutdown_write() / close() on the peer's end: CHANNEL_EOF, CHANNEL_CLOSE (no data after either)
 PeerEof(c) ==
   /\ pstate[c] = "open"
   /\ pstate' = [pstate EXCEPT ![c] = "eof"]
   /\ wire' = Append(wire, Run(c, "eof", 0, 0))
-  /\ UNCHANGED <<sent, statusSent, buf, got, combine, swpc, moved, tpc, status, shut, statusEv, reported>>
+  /\ UNCHANGED <<sent, statusSent, buf, got, combine, swpc, moved, tpc, status, shut, statusEv, reported, win>>
 PeerClose(c) ==
   /\ pstate[c] # "closed"
   /\ pstate' = [pstate EXCEPT ![c] = "closed"]
   /\ wire' = Append(wire, Run(c, "close", 0, 0))
-  /\ UNCHANGED <<sent, statusSent, buf, got, combine, swpc, moved, tpc, status, shut, statusEv, reported>>
+  /\ UNCHANGED <<sent, statusSent, buf, got, combine, swpc, moved, tpc, status, shut, statusEv, reported, win>>
 
 \* BufferedPipe.feed: a pipe that has been closed still takes data (set_combine_stderr relies on it when the
 \* switch comes after the peer's EOF / CLOSE)
@@ -147,7 +160,7 @@ FeedOut ==
   /\ tpc = <<>> /\ wire # <<>> /\ Head(wire).s = "out"
   /\ LET m == Head(wire) IN buf' = [buf EXCEPT ![Dest(m.c)].out = Fed(@, Dest(m.c), <<m>>)]
   /\ wire' = Tail(wire)
-  /\ UNCHANGED <<sent, statusSent, got, combine, swpc, moved, tpc, status, pstate, shut, statusEv, reported>>
+  /\ UNCHANGED <<sent, statusSent, got, combine, swpc, moved, tpc, status, pstate, shut, statusEv, reported, win>>
 
 Route(m, flag) ==
   IF flag /\ Mutation # "ignore_combine"
@@ -161,7 +174,7 @@ FeedExtAtomic ==
   /\ swpc[Head(wire).c] # "moved"              \* (never "moved" when AtomicCombine)
   /\ Route(Head(wire), combine[Head(wire).c])
   /\ wire' = Tail(wire)
-  /\ UNCHANGED <<sent, statusSent, got, combine, swpc, moved, tpc, status, pstate, shut, statusEv, reported>>
+  /\ UNCHANGED <<sent, statusSent, got, combine, swpc, moved, tpc, status, pstate, shut, statusEv, reported, win>>
 
 \* pinned code: `if self.combine_stderr:` ... then the feed, no lock
 FeedExtTest ==
@@ -169,12 +182,12 @@ FeedExtTest ==
   /\ tpc = <<>> /\ wire # <<>> /\ Head(wire).s = "err"
   /\ tpc' = <<[m |-> Head(wire), flag |-> combine[Head(wire).c]]>>
   /\ wire' = Tail(wire)
-  /\ UNCHANGED <<sent, statusSent, buf, got, combine, swpc, moved, status, pstate, shut, statusEv, reported>>
+  /\ UNCHANGED <<sent, statusSent, buf, got, combine, swpc, moved, status, pstate, shut, statusEv, reported, win>>
 FeedExtFeed ==
   /\ tpc # <<>> /\ tpc[1].m.s = "err"
   /\ Route(tpc[1].m, tpc[1].flag)
   /\ tpc' = <<>>
-  /\ UNCHANGED <<sent, statusSent, wire, got, combine, swpc, moved, status, pstate, shut, statusEv, reported>>
+  /\ UNCHANGED <<sent, statusSent, wire, got, combine, swpc, moved, status, pstate, shut, statusEv, reported, win>>
 
 \* Channel._handle_request("exit-status"): two statements of the transport thread, a waiter may run in between
 \*     self.exit_status = m.get_int()        (Store)
@@ -190,30 +203,32 @@ ExitStatus1 ==
   /\ tpc' = <<[m |-> Head(wire), flag |-> FALSE]>>
   /\ wire' = Tail(wire)
   /\ (IF EventBeforeStatus THEN Signal(Head(wire).c) ELSE Store(Head(wire).c, Head(wire).pos))
-  /\ UNCHANGED <<sent, statusSent, buf, got, combine, swpc, moved, pstate, shut, reported>>
+  /\ UNCHANGED <<sent, statusSent, buf, got, combine, swpc, moved, pstate, shut, reported, win>>
 ExitStatus2 ==
   /\ tpc # <<>> /\ tpc[1].m.s = "exit"
   /\ tpc' = <<>>
   /\ (IF EventBeforeStatus THEN Store(tpc[1].m.c, tpc[1].m.pos) ELSE Signal(tpc[1].m.c))
-  /\ UNCHANGED <<sent, statusSent, wire, buf, got, combine, swpc, moved, pstate, shut, reported>>
+  /\ UNCHANGED <<sent, statusSent, wire, buf, got, combine, swpc, moved, pstate, shut, reported, win>>
 \* application: recv_exit_status() - waits for status_event, then returns exit_status
 RecvExitStatus(c) ==
   /\ statusEv[c] /\ reported[c] = Unread
   /\ reported' = [reported EXCEPT ![c] = status[c]]
-  /\ UNCHANGED <<sent, statusSent, wire, buf, got, combine, swpc, moved, tpc, status, pstate, shut, statusEv>>
+  /\ UNCHANGED <<sent, statusSent, wire, buf, got, combine, swpc, moved, tpc, status, pstate, shut, statusEv, win>>
 
 \* Channel._handle_eof / _handle_close: both pipes are closed (readers get EOF once they are empty)
 EofOrClose ==
   /\ tpc = <<>> /\ wire # <<>> /\ Head(wire).s \in {"eof", "close"}
   /\ shut' = [shut EXCEPT ![Head(wire).c] = TRUE]
   /\ wire' = Tail(wire)
-  /\ UNCHANGED <<sent, statusSent, buf, got, combine, swpc, moved, tpc, status, pstate, statusEv, reported>>
+  /\ UNCHANGED <<sent, statusSent, buf, got, combine, swpc, moved, tpc, status, pstate, statusEv, reported, win>>
 
 \* ---- application threads
 Recv(c, ep, k) ==
   /\ buf[c][ep] # <<>>
   /\ got' = [got EXCEPT ![c][ep] = AppendRuns(@, TakeBytes(buf[c][ep], k))]
   /\ buf' = [buf EXCEPT ![c][ep] = DropBytes(@, IF Mutation = "skip_byte" THEN k + 1 ELSE k)]
+  \* consumed bytes are granted back (CHANNEL_WINDOW_ADJUST; the 10 % threshold and the delay are abstracted away)
+  /\ win' = IF Window = 0 THEN win ELSE [win EXCEPT ![c] = @ + Bytes(TakeBytes(buf[c][ep], k))]
   /\ UNCHANGED <<sent, statusSent, wire, combine, swpc, moved, tpc, status, pstate, shut, statusEv, reported>>
 
 Old(c) == IF Mutation = "lose_old" THEN <<>> ELSE buf[c].err
@@ -224,7 +239,7 @@ CombineAtomic(c) ==
   /\ combine' = [combine EXCEPT ![c] = TRUE]
   /\ buf' = [buf EXCEPT ![c].out = Fed(@, c, Old(c)), ![c].err = <<>>]
   /\ swpc' = [swpc EXCEPT ![c] = "on"]
-  /\ UNCHANGED <<sent, statusSent, wire, got, moved, tpc, status, pstate, shut, statusEv, reported>>
+  /\ UNCHANGED <<sent, statusSent, wire, got, moved, tpc, status, pstate, shut, statusEv, reported, win>>
 
 \* pinned code: [lock: flag := TRUE; data := stderr.empty()] ... _feed(data)
 CombineTake(c) ==
@@ -233,13 +248,13 @@ CombineTake(c) ==
   /\ moved' = [moved EXCEPT ![c] = Old(c)]
   /\ buf' = [buf EXCEPT ![c].err = <<>>]
   /\ swpc' = [swpc EXCEPT ![c] = "moved"]
-  /\ UNCHANGED <<sent, statusSent, wire, got, tpc, status, pstate, shut, statusEv, reported>>
+  /\ UNCHANGED <<sent, statusSent, wire, got, tpc, status, pstate, shut, statusEv, reported, win>>
 CombineRefeed(c) ==
   /\ swpc[c] = "moved"
   /\ buf' = [buf EXCEPT ![c].out = Fed(@, c, moved[c])]
   /\ moved' = [moved EXCEPT ![c] = <<>>]
   /\ swpc' = [swpc EXCEPT ![c] = "on"]
-  /\ UNCHANGED <<sent, statusSent, wire, got, combine, tpc, status, pstate, shut, statusEv, reported>>
+  /\ UNCHANGED <<sent, statusSent, wire, got, combine, tpc, status, pstate, shut, statusEv, reported, win>>
 
 Next == \/ \E c \in Chans, s \in Eps, n \in 1..MaxMsg : PeerWrite(c, s, n)
         \/ \E c \in Chans, v \in Statuses : PeerExit(c, v)
